@@ -986,6 +986,17 @@ class TorConfig:
                 return x
         return name
 
+    def _default_list(self, name):
+        """
+        The default of a list-valued option as a list (config/defaults
+        gives a plain string when there is a single line for it).
+        Raises KeyError if Tor listed no default.
+        """
+        default = self.__dict__['_defaults'][name]
+        if isinstance(default, list):
+            return list(default)
+        return [default]
+
     @defer.inlineCallbacks
     def _get_defaults(self):
         try:
@@ -1039,7 +1050,7 @@ class TorConfig:
                 initial = []
                 if v == DEFAULT_VALUE or v == 'auto':
                     try:
-                        initial = defaults[name[:-5]]
+                        initial = self._default_list(name[:-5])
                     except KeyError:
                         default_key = '__{}'.format(name[:-5])
                         default = yield self.protocol.get_conf_single(default_key)
@@ -1048,7 +1059,10 @@ class TorConfig:
                         else:
                             initial = [default]
                 else:
-                    initial = [self.parsers[rn].parse(v)]
+                    # Tor reports an option with several values as a list
+                    if not isinstance(v, list):
+                        v = [v]
+                    initial = [self.parsers[rn].parse(x) for x in v]
                 self.config[rn] = _ListWrapper(
                     initial, functools.partial(self.mark_unsaved, rn))
 
@@ -1078,7 +1092,10 @@ class TorConfig:
                 self.list_parsers.add(rn)
                 parsed = self.parsers[rn].parse(v)
                 if parsed == [DEFAULT_VALUE]:
-                    parsed = defaults.get(rn, [])
+                    try:
+                        parsed = self._default_list(rn)
+                    except KeyError:
+                        parsed = []
                 self.config[rn] = _ListWrapper(
                     parsed, functools.partial(self.mark_unsaved, rn))
 
